@@ -46,7 +46,18 @@ Caps == << <<800, 48>>, <<12, 48>>, <<800, 8>> >>
 Outlines == << <<P(0,0), P(4,0), P(0,3)>>, <<P(0,0), P(0,3), P(4,0)>>, <<P(0,0), P(2,1), P(4,0), P(2,4)>>, <<P(2,4), P(4,0), P(2,1), P(0,0)>>,
                <<P(1,0), P(3,0), P(4,2), P(2,4), P(0,2)>>, <<P(0,0), P(0,2), P(2,2), P(2,0)>> >>
 
+\* a roof ridge plus a large oblique face far above it (plane x + z = 12) whose bounding box covers the ridge in some frames
+\* only: the side of the surface a point lies on may not depend on such a face.  All queries have a unique closest point.
+RoofV == << <<2,0,2>>, <<2,4,2>>, <<0,2,0>>, <<4,2,0>>, <<14,-2,-2>>, <<-2,-2,14>>, <<6,10,6>> >>
+RoofF == << <<0,1,2>>, <<1,0,3>>, <<4,5,6>> >>
+RoofUV == << <<2,0,0>>, <<2,4,0>>, <<0,2,0>>, <<4,2,0>>, <<14,-2,0>>, <<-2,-2,0>>, <<6,10,0>> >>
+RoofQ == << <<6,4,8>>, <<2,4,8>>, <<5,3,7>>, <<3,5,6>>, <<3,4,2>> >>
+\* a curve that is closed only within its tolerance (closing gap 1, tolerance 1.5): the closing vertex is a vertex of its own
+TolClosed == <<P(0,0), P(4,0), P(4,4), P(0,4), P(0,1)>>
+
 Cases ==
+    {[m |-> "rigid", op |-> "meshopt", dim |-> 3, T |-> T, vpos |-> RoofV, faces |-> RoofF, uv |-> RoofUV, qs |-> RoofQ, md16 |-> 800, ang16 |-> 48, devall |-> TRUE] : T \in Motions3} \cup
+    {[m |-> "rigid", op |-> "curve", dim |-> 2, T |-> T, T2 |-> Mot2(3, 2), tol16 |-> 24, pts |-> TolClosed, fc |-> FALSE, ls |-> <<1, 9, 17, 29>>, qs |-> Queries2] : T \in Motions2} \cup
     {[m |-> "rigid", op |-> "meshopt", dim |-> 3, T |-> T, vpos |-> FoldV, faces |-> FoldF, uv |-> FoldUV, qs |-> FoldQ, md16 |-> Caps[c][1], ang16 |-> Caps[c][2]] : T \in Motions3, c \in 1..3} \cup
     {[m |-> "rigid", op |-> "ccw", dim |-> 2, T |-> T, pts |-> Outlines[k], fc |-> fc] : T \in Motions2, k \in 1..6, fc \in BOOLEAN} \cup
     {[m |-> "rigid", op |-> "sp", dim |-> 2, T |-> T, p |-> <<1,2,0>>, n |-> Normals2[k], qs |-> Queries2] : T \in Motions2, k \in 1..4} \cup
